@@ -23,6 +23,11 @@
 //!   S13 / S13s reference cycle: A moves y under x (x.child♭ = y), B moves x under y, A melds B: x references y and y
 //!              references x / + staged.  These cases run in a CHILD PROCESS on a thread with a 1 MiB stack: unbounded
 //!              recursion would overflow the stack and kill the process (booked as `abort:<case>`)
+//!   S14 / S14s an editor and a viewer over the SAME adapter object; the editor commits twice; the viewer (opened before) is
+//!              the subject / + a staged object on the viewer
+//!   S15        a long linear history (1000 commits quick / 1500 thorough) written by one replica; the subject is a second
+//!              replica opened on the same storage; operations new, reload, refresh, reload_until (own heads / an old
+//!              head), new_until, meld from the author, read — in a CHILD PROCESS; the operation runs on a thread with a 96 KiB stack (the situation is built on a normal one); 8 s limit
 //! Operations (each where its arguments can be formed): commit, commit-info, update-edit (document just read with a
 //! changed title), update-reread (document just read, unchanged), create_object / update_object / delete_object on o1,
 //! read, read-o1 (read(Some("o1"))), get_value-all (every object, at None and at every live leaf), get_winner-all,
@@ -152,8 +157,8 @@ fn stranger() -> Result<Melda, String> {
     Ok(o)
 }
 
-const SITUATIONS: [&str; 26] = [
-    "S1", "S2c", "S2", "S3", "S3s", "S4", "S4s", "S5a", "S5as", "S5b", "S5bs", "S6", "S6s", "S7", "S7s", "S8", "S8s", "S9", "S9s", "S10", "S11", "S11s", "S12", "S12s", "S13", "S13s",
+const SITUATIONS: [&str; 29] = [
+    "S1", "S2c", "S2", "S3", "S3s", "S4", "S4s", "S5a", "S5as", "S5b", "S5bs", "S6", "S6s", "S7", "S7s", "S8", "S8s", "S9", "S9s", "S10", "S11", "S11s", "S12", "S12s", "S13", "S13s", "S14", "S14s", "S15",
 ];
 
 fn array_conflict_situation(sit: &str) -> bool {
@@ -217,6 +222,35 @@ fn build(sit: &str, script: usize, seed: u64) -> Result<Sit, String> {
                 orch::ge("B.update_object(o1)", || b.update_object("o1", orch::obj(json!({"v": 333}))))?;
             }
             Ok(Sit { m: b, ad, peer: a, older })
+        }
+        "S14" | "S14s" => {
+            // an editor and a viewer on ONE adapter (the same Arc<RwLock<Box<dyn Adapter>>>); the viewer (subject) was
+            // opened before the editor committed anything
+            let viewer = orch::open(&ad)?;
+            let editor = orch::open(&ad)?;
+            upd(&editor, &model, "editor.update")?;
+            let older = Some(commit_some(&editor, "editor.commit 1")?);
+            model.edit(&mut rng);
+            upd(&editor, &model, "editor.update")?;
+            commit_some(&editor, "editor.commit 2")?;
+            if sit == "S14s" {
+                orch::ge("viewer.create_object", || viewer.create_object("vnote", orch::obj(json!({"seen": true}))))?;
+            }
+            Ok(Sit { m: viewer, ad, peer: editor, older })
+        }
+        "S15" => {
+            // a long linear history (`script` commits); the subject is a SECOND replica opened on the same storage
+            let author = orch::open(&ad)?;
+            let mut older = None;
+            for i in 0..script.max(3) {
+                orch::ge("author.update_object", || author.update_object(&format!("o{}", i % 7), orch::obj(json!({"v": i}))))?;
+                let h = commit_some(&author, "author.commit")?;
+                if i == 1 {
+                    older = Some(h);
+                }
+            }
+            let second = orch::open(&ad)?;
+            Ok(Sit { m: second, ad, peer: author, older })
         }
         "S13" | "S13s" => {
             // reference cycle: A moves y under x, B moves x under y; after the meld x references y and y references x
@@ -438,6 +472,8 @@ fn leaves(m: &Melda, uuid: &str) -> Result<Vec<String>, String> {
 }
 
 /// the operations whose arguments can be formed in this situation
+const LONG_HISTORY_OPS: [&str; 8] = ["new", "reload", "refresh", "reload_until-own", "reload_until-older", "new_until-older", "meld-in", "read"];
+
 fn ops_of(s: &Sit) -> Result<Vec<OpSpec>, String> {
     let mut out = vec![];
     for n in PLAIN_OPS {
@@ -629,7 +665,7 @@ fn uncap() {
 /// The reference-cycle situations run in a child process (this binary, `replay returns {.., "inproc": true}`), on a thread
 /// with a 1 MiB stack: unbounded recursion overflows the stack, which kills the whole process and cannot be caught.
 fn spawn_case(sit: &'static str, script: usize, seed: u64, op: OpSpec) -> Receiver<Step> {
-    if sit.starts_with("S13") {
+    if sit.starts_with("S13") || sit == "S15" {
         return spawn_child(sit, script, seed, op);
     }
     spawn_inproc(sit, script, seed, op, 8 << 20)
@@ -718,43 +754,51 @@ fn spawn_child(sit: &'static str, script: usize, seed: u64, op: OpSpec) -> Recei
     rx
 }
 
+/// The situation is built on a thread with a normal stack (lazily initialised statics of the library are set up there
+/// too); the operation and the follow-up read run on a thread of their own with `stack` bytes.
 fn spawn_inproc(sit: &'static str, script: usize, seed: u64, op: OpSpec, stack: usize) -> Receiver<Step> {
     let (tx, rx) = channel();
-    let _ = std::thread::Builder::new().stack_size(stack).spawn(move || {
-        with_caps(sit, || {
-            let mut s = match orch::g(|| build(sit, script, seed)) {
-                Ok(Ok(s)) => s,
-                Ok(Err(e)) => {
-                    let _ = tx.send(Step::Setup(e));
-                    return;
-                }
-                Err(p) => {
-                    let _ = tx.send(Step::Setup(format!("panic while building: {}", p.lines().next().unwrap_or(""))));
-                    return;
-                }
-            };
-            match orch::g(|| run_op(&mut s, &op)) {
-                Ok(Ok(r)) => {
-                    let _ = tx.send(Step::OpReturned(r));
-                }
-                Ok(Err(e)) => {
-                    let _ = tx.send(Step::Setup(e));
-                    return;
-                }
-                Err(p) => {
-                    let _ = tx.send(Step::OpPanicked(p.lines().next().unwrap_or("").to_string()));
-                    return;
-                }
+    let _ = std::thread::Builder::new().stack_size(8 << 20).spawn(move || {
+        let built = with_caps(sit, || orch::g(|| build(sit, script, seed)));
+        let mut s = match built {
+            Ok(Ok(s)) => s,
+            Ok(Err(e)) => {
+                let _ = tx.send(Step::Setup(e));
+                return;
             }
-            match orch::g(|| s.m.read(None).map(|_| ())) {
-                Ok(_) => {
-                    let _ = tx.send(Step::ReadReturned);
-                }
-                Err(p) => {
-                    let _ = tx.send(Step::ReadPanicked(p.lines().next().unwrap_or("").to_string()));
-                }
+            Err(p) => {
+                let _ = tx.send(Step::Setup(format!("panic while building: {}", p.lines().next().unwrap_or(""))));
+                return;
             }
-        })
+        };
+        let inner = std::thread::Builder::new().stack_size(stack).spawn(move || {
+            with_caps(sit, || {
+                match orch::g(|| run_op(&mut s, &op)) {
+                    Ok(Ok(r)) => {
+                        let _ = tx.send(Step::OpReturned(r));
+                    }
+                    Ok(Err(e)) => {
+                        let _ = tx.send(Step::Setup(e));
+                        return;
+                    }
+                    Err(p) => {
+                        let _ = tx.send(Step::OpPanicked(p.lines().next().unwrap_or("").to_string()));
+                        return;
+                    }
+                }
+                match orch::g(|| s.m.read(None).map(|_| ())) {
+                    Ok(_) => {
+                        let _ = tx.send(Step::ReadReturned);
+                    }
+                    Err(p) => {
+                        let _ = tx.send(Step::ReadPanicked(p.lines().next().unwrap_or("").to_string()));
+                    }
+                }
+            })
+        });
+        if let Ok(h) = inner {
+            let _ = h.join();
+        }
     });
     rx
 }
@@ -820,7 +864,13 @@ fn work(thorough: bool, seed: u64, out: &Out) {
     // enumerate the cases (the situation is built once here to see which arguments can be formed)
     let mut all: Vec<(&'static str, usize, OpSpec)> = vec![];
     for sit in SITUATIONS {
-        let scripts = if thorough && !matches!(sit.trim_end_matches('s'), "S7" | "S8" | "S9" | "S10" | "S13") { 4 } else { 1 };
+        if sit == "S15" {
+            // `script` carries the number of commits; the operations need no enumeration
+            let n = if thorough { 1500 } else { 1000 };
+            all.extend(LONG_HISTORY_OPS.iter().map(|o| (sit, n, OpSpec::plain(o))));
+            continue;
+        }
+        let scripts = if thorough && !matches!(sit.trim_end_matches('s'), "S7" | "S8" | "S9" | "S10" | "S13" | "S14") { 4 } else { 1 };
         for script in 0..scripts {
             out.begin(&format!("{}#{}: enumerating operations", sit, script), json!({"situation": sit, "script": script}));
             let (tx, rx) = channel();
@@ -852,7 +902,7 @@ fn work(thorough: bool, seed: u64, out: &Out) {
         all.iter().filter(|(s, _, o)| slow(s, o)).map(|(s, sc, o)| (*s, *sc, o.clone(), spawn_case(*s, *sc, seed, o.clone()))).collect();
     // everything else in waves; the capped-cache situations last (the caps are process-wide environment variables)
     for caps in [false, true] {
-        let rest: Vec<&(&'static str, usize, OpSpec)> = all.iter().filter(|(s, _, o)| !slow(s, o) && s.starts_with("S6") == caps).collect();
+        let rest: Vec<&(&'static str, usize, OpSpec)> = all.iter().filter(|(s, _, o)| !slow(s, o) && *s != "S15" && s.starts_with("S6") == caps).collect();
         for wave in rest.chunks(16) {
             out.begin(&format!("wave starting at {}", case_id(wave[0].0, wave[0].1, &wave[0].2)), input_of(wave[0].0, wave[0].1, seed, &wave[0].2));
             let t0 = Instant::now();
@@ -863,6 +913,18 @@ fn work(thorough: bool, seed: u64, out: &Out) {
             }
         }
         if !caps {
+            // the long-history cases rebuild a long history each (in child processes): four at a time, own time limit
+            let long_limit = Duration::from_secs(8);
+            let long: Vec<&(&'static str, usize, OpSpec)> = all.iter().filter(|(s, _, _)| *s == "S15").collect();
+            for wave in long.chunks(4) {
+                out.begin(&format!("wave starting at {}", case_id(wave[0].0, wave[0].1, &wave[0].2)), input_of(wave[0].0, wave[0].1, seed, &wave[0].2));
+                let t0 = Instant::now();
+                let rxs: Vec<Receiver<Step>> = wave.iter().map(|(s, sc, o)| spawn_case(*s, *sc, seed, o.clone())).collect();
+                for ((s, sc, o), rx) in wave.iter().zip(rxs.iter()) {
+                    let v = verdict(rx, t0 + long_limit, long_limit);
+                    book(out, &mut tally, s, *sc, seed, o, v);
+                }
+            }
             out.begin("collecting the expected-slow group", json!({}));
             for (s, sc, o, rx) in &parked {
                 let v = verdict(rx, started + limit, limit);
@@ -893,9 +955,9 @@ pub fn run(thorough: bool, seed: u64) -> Report {
     let mut rep = Report::new(
         "returns",
         if thorough {
-            "26 situations (S1..S6s as in `maintenance`, S7/S7s three-leaf object conflict, S8/S8s array + object conflict, S9/S9s array deleted on one side and edited on the other, S10 resolved but not committed, S11/S11s time-travelled, S12/S12s held-back block with a missing pack, S13/S13s reference cycle between two tracked objects, run in a child process) x 4 edit scripts for S1..S6s, S11*, S12* (1 for the others) x every operation whose arguments can be formed out of 33 plain operations + resolve_as and resolve_as+commit for every live leaf of every object in conflict; one operation per case, then read(None); 5 s limit"
+            "29 situations (S1..S6s as in `maintenance`, S7/S7s three-leaf object conflict, S8/S8s array + object conflict, S9/S9s array deleted on one side and edited on the other, S10 resolved but not committed, S11/S11s time-travelled, S12/S12s held-back block with a missing pack, S13/S13s reference cycle between two tracked objects, run in a child process, S14/S14s two replicas over the same adapter object, S15 history of 1000 / 1500 commits opened by a second replica in a child process, 8 operations each on a 96 KiB stack with an 8 s limit) x 4 edit scripts for S1..S6s, S11*, S12* (1 for the others) x every operation whose arguments can be formed out of 33 plain operations + resolve_as and resolve_as+commit for every live leaf of every object in conflict; one operation per case, then read(None); 5 s limit"
         } else {
-            "26 situations (S1..S6s as in `maintenance`, S7/S7s three-leaf object conflict, S8/S8s array + object conflict, S9/S9s array deleted on one side and edited on the other, S10 resolved but not committed, S11/S11s time-travelled, S12/S12s held-back block with a missing pack, S13/S13s reference cycle between two tracked objects, run in a child process) x 1 edit script x every operation whose arguments can be formed out of 33 plain operations + resolve_as and resolve_as+commit for every live leaf of every object in conflict; one operation per case, then read(None); 2 s limit"
+            "29 situations (S1..S6s as in `maintenance`, S7/S7s three-leaf object conflict, S8/S8s array + object conflict, S9/S9s array deleted on one side and edited on the other, S10 resolved but not committed, S11/S11s time-travelled, S12/S12s held-back block with a missing pack, S13/S13s reference cycle between two tracked objects, run in a child process, S14/S14s two replicas over the same adapter object, S15 history of 1000 / 1500 commits opened by a second replica in a child process, 8 operations each on a 96 KiB stack with an 8 s limit) x 1 edit script x every operation whose arguments can be formed out of 33 plain operations + resolve_as and resolve_as+commit for every live leaf of every object in conflict; one operation per case, then read(None); 2 s limit"
         },
         "exhaustive over situations x scripts x formable operations; one case each, in a thread of its own; failure = panic (panic:<case>), death of the process running the case (abort:<case>) or no return within the limit (hang:<case>); every case non-trivial",
     );
@@ -923,13 +985,15 @@ pub fn replay(case: &Value) -> Value {
     let limit = Duration::from_secs(5);
     if inp["inproc"].as_bool() == Some(true) {
         // child-process mode (see spawn_child): run the case here, on a small stack, and say what happened
-        let rx = spawn_inproc(sit, script, seed, op, 1 << 20);
+        // the long history's operation runs on a 96 KiB stack: recursion as deep as the history is long must not happen
+        let small = std::env::var("MELDA_VERIF_SMALL_STACK_KIB").ok().and_then(|v| v.parse::<usize>().ok()).unwrap_or(96) << 10;
+        let rx = spawn_inproc(sit, script, seed, op, if sit == "S15" { small } else { 1 << 20 });
         return match verdict(&rx, Instant::now() + limit, limit) {
             None => json!({"outcome": "returned", "what": "both steps returned"}),
             Some((kind, what)) => json!({"outcome": kind, "what": what}),
         };
     }
-    let limit = if sit.starts_with("S13") { Duration::from_secs(9) } else { limit };
+    let limit = if sit.starts_with("S13") || sit == "S15" { Duration::from_secs(9) } else { limit };
     let rx = spawn_case(sit, script, seed, op);
     let v = verdict(&rx, Instant::now() + limit, limit);
     let want = case["case_id"].as_str().unwrap_or("");
